@@ -43,20 +43,42 @@ impl<'a> BerDecoder<'a> for SnmpReal {
 
                 // 8.5.7.4 Bits 2 to 1 of the first contents octet
                 // shall encode the format of the exponent as follows:
-                let ln = (f & 0x03) as usize + 2;
-                if i.len() < ln {
+                // 00 - one octet, 01 - two octets, 10 - three octets,
+                // 11 - the next octet holds the number of exponent octets
+                let (e_start, e_len) = match f & 0x03 {
+                    0x03 => {
+                        if i.len() < 2 {
+                            return Err(SnmpError::InvalidData);
+                        }
+                        (2, i[1] as usize)
+                    }
+                    n => (1, n as usize + 1),
+                };
+                let e_end = e_start + e_len;
+                if e_len == 0 || e_len > 4 || i.len() < e_end {
                     return Err(SnmpError::InvalidData);
                 }
-                let e = SnmpReal::parse_u32(&i[1..ln]) as i32;
-                let mut v: f64 = SnmpReal::parse_u32(&i[ln..]).into();
+                // Exponent is a two's complement binary number
+                let e_sign: i32 = if i[e_start] & 0x80 == 0 { 0 } else { -1 };
+                let e = i[e_start..e_end]
+                    .iter()
+                    .fold(e_sign, |acc, x| (acc << 8) | (*x as i32));
+                // 8.5.7.5 The remaining contents octets encode the integer N
+                // as an unsigned binary number
+                let n_octets = &i[e_end..];
+                if n_octets.len() > 8 {
+                    return Err(SnmpError::InvalidData);
+                }
+                let n = n_octets.iter().fold(0u64, |acc, x| (acc << 8) | (*x as u64));
+                let mut v = n as f64;
                 // 8.5.7.3: Bits 4 to 3 of the first contents octet shall
                 // encode the value of the binary scaling factor F
-                // as an unsigned binary integer.
+                // as an unsigned binary integer: M = S * N * 2^F
                 match (f & 0x0c) >> 2 {
+                    0 => {}
                     1 => v *= 2.0,
                     2 => v *= 4.0,
-                    3 => v *= 8.0,
-                    _ => return Err(SnmpError::InvalidData),
+                    _ => v *= 8.0,
                 }
                 // 8.5.7.2: Bits 6 to 5 of the first contents octets
                 // shall encode the value of the base B' as follows:
@@ -113,16 +135,6 @@ impl<'a> BerDecoder<'a> for SnmpReal {
             0b01000011 => -0.0,
             _ => return Err(SnmpError::InvalidData),
         }))
-    }
-}
-
-impl SnmpReal {
-    fn parse_u32(i: &[u8]) -> u32 {
-        let mut v = 0u32;
-        for &n in i.iter() {
-            v = (v << 8) | (n as u32);
-        }
-        v
     }
 }
 
